@@ -145,6 +145,16 @@ def install(ctx, repo, probes):
         mode, inst, key, rd, integral, hform = snap
         ctx.ev("dump.post")
         if exc is not None:
+            # the dumper may refuse a year that does not fit the format - but
+            # only when the year of the re-zoned local date really does not
+            if isinstance(exc, repo.exceptions.TimePointDumperBoundsError):
+                local = inst + spec["off_min"] * 60
+                yr = R.rd_to_date(mode, spec["rep"], int(local // 86400))[0]
+                fits = abs(yr) <= 10 ** (4 + spec["nexp"]) - 1 \
+                    if spec["nexp"] else 0 <= yr <= 9999
+                if not fits:
+                    ctx.cls("dump/bounds-error-legit")
+                    return
             ctx.violation("dump.raised", "dump(%r, %r) raised %r" % (
                 key, args[2], exc), p=key, fmt=args[2])
             return
@@ -184,6 +194,7 @@ def install(ctx, repo, probes):
         for e in ("ext", "basic"):
             for z in ("Z", "hh", "hhmm"):
                 ctx.target("dump/%s/%s/%s" % (rep, e, z))
+    ctx.target("dump/bounds-error-legit")
     ctx.target("weekyear-rollover", "minutes-offset",
                "zero-hour-negative-minutes", "beyond-a-day")
 
@@ -239,7 +250,10 @@ def run_case(ctx, repo, case):
             try:
                 dumper = repo.dumpers.TimePointDumper(
                     num_expanded_year_digits=spec["nexp"])
-                dumper.dump(p, case["fmt"])
+                try:
+                    dumper.dump(p, case["fmt"])
+                except ValueError:
+                    pass        # judged by the monitor on dump
             finally:
                 ctx.dump_spec = None
         elif op == "tzstr":
@@ -315,8 +329,43 @@ def make_dump_case(rng, mode):
                      "zform": zform, "off_min": off[0] * 60 + off[1]}}
 
 
+def edge_year_dumps(rng):
+    """dumps whose literal zone moves the date across the first / last year
+    the format can hold"""
+    out = []
+    for (y, m, d, h, mi, nexp) in ((9999, 12, 31, 23, 30, 0),
+                                   (0, 1, 1, 0, 30, 0),
+                                   (999999, 12, 31, 23, 30, 2),
+                                   (-999999, 1, 1, 0, 30, 2),
+                                   (9999, 12, 31, 0, 30, 0),
+                                   (0, 1, 1, 23, 30, 0)):
+        for off in ((1, 0), (-1, 0), (0, 45), (0, -45), (14, 0), (-12, 0)):
+            for rep, ext in (("cal", True), ("ord", False), ("week", True)):
+                p = {"year": y, "month_of_year": m, "day_of_month": d,
+                     "hour_of_day": h, "minute_of_hour": mi,
+                     "second_of_minute": 0}
+                if nexp:
+                    p["num_expanded_year_digits"] = nexp
+                dfmt = DATE_FMT[(rep, ext)]
+                if nexp:
+                    dfmt = "+X" + dfmt
+                tsep = ":" if ext else ""
+                fmt = dfmt + "T" + "hh" + tsep + "mm" + tsep + "ss" + \
+                    isotext.enc_zone(off, "hhmm", ext)
+                out.append({"op": "dump", "mode": "gregorian", "p": p,
+                            "fmt": fmt,
+                            "spec": {"rep": rep, "ext": ext, "nexp": nexp,
+                                     "units": 3, "zform": "hhmm",
+                                     "off_min": off[0] * 60 + off[1]}})
+    return out
+
+
 def workload(ctx, repo):
     rng = ctx.rng
+    if ctx.worker == 0:
+        for case in edge_year_dumps(rng):
+            ctx.case = case
+            run_case(ctx, repo, case)
     offs = all_offsets() + [(0, -m) for m in range(1, 60)]
     i = 0
     for mode in R.MODES:
